@@ -571,11 +571,11 @@ Proof.
   - (* ListCommands *) now apply frame_send.
   - (* Arbiter *) guard_tac H. cbn [fst]. now apply frame_register_arbiter.
   - (* Resolve *)
-    assert (Hrun : forall dbn0, frame n (if is_primary n
+    assert (Hrun : forall (b : bool) dbn0, frame n (if is_primary n || b
         then fst (resolve_conflict n dbn0 (mkCh key value version opp_id true))
         else send_to_primary n ("resolve " +++ N_to_str opp_id +++ " " +++ db_name +++ " " +++ key +++ " "
                                 +++ Z_to_str version +++ " " +++ value))).
-    { intros dbn0. destruct (is_primary n).
+    { intros b dbn0. destruct (is_primary n || b).
       - now apply frame_resolve_conflict.
       - now apply frame_send_to_primary. }
     destruct (s_auth (get_sess n c)).
